@@ -396,7 +396,7 @@ func b2n(b bool) int {
 }
 
 func c20(r *rng, tier string, o *out) {
-	nPairs, nMulti := 70, 150
+	nPairs, nMulti := 96, 150
 	if tier == "thorough" {
 		nPairs, nMulti = 1500, 3000
 	}
@@ -428,6 +428,16 @@ func c20(r *rng, tier string, o *out) {
 	for c := 0; c < nPairs; c++ {
 		// world A
 		nt := 1 + r.intn(40)
+		blocky := (c/12)%2 == 1 // tiles of 600..900 bytes: with 1 kB blocks every tile is a block of its own, so inserting or removing a tile inserts or removes a whole block
+		tsize := func() int {
+			if blocky {
+				return 600 + r.intn(300)
+			}
+			return 40 + r.intn(360)
+		}
+		if blocky {
+			nt = 3 + r.intn(10)
+		}
 		id := uint64(r.intn(4))
 		var ta []tileKV
 		pool := [][]byte{r.bytes(60 + r.intn(300)), r.bytes(60 + r.intn(300))}
@@ -436,7 +446,7 @@ func c20(r *rng, tier string, o *out) {
 			nt = 1 + r.intn(2)
 		}
 		for i := 0; i < nt; i++ {
-			d := r.bytes(40 + r.intn(360))
+			d := r.bytes(tsize())
 			if tiny {
 				d = r.bytes(1 + r.intn(4))
 			}
@@ -453,7 +463,7 @@ func c20(r *rng, tier string, o *out) {
 			if tiny {
 				return tileKV{id, r.bytes(1 + r.intn(4))}
 			}
-			return tileKV{id, r.bytes(40 + r.intn(360))}
+			return tileKV{id, r.bytes(tsize())}
 		}
 		mid := len(tb) / 2
 		switch kind {
@@ -512,7 +522,10 @@ func c20(r *rng, tier string, o *out) {
 		if kind == "identical" {
 			b = a
 		}
-		bsKb := []int{0, 1, 1, 2, 5}[r.intn(5)]
+		bsKb := []int{0, 1, 2, 5}[(c/24)%4] // every kind of change meets every block size
+		if blocky {
+			bsKb = []int{1, 0}[(c/24)%2]
+		}
 		dry := r.chance(12)
 		fault := "none"
 		if r.chance(15) {
